@@ -92,7 +92,8 @@ def run_unit(A, unit, rep, tier):
         usrc = ast.unparse(up.func.node)
         uses_same = r.name in usrc and any(isinstance(n, ast.Compare) and isinstance(n.comparators[0], ast.Constant) and n.comparators[0].value == lit and r.name in ast.unparse(n.left) for n in ast.walk(up.func.node))
         others = [n for n in ast.walk(up.func.node) if isinstance(n, ast.If) and "isinstance" in ast.unparse(n.test) and ("Sequence" in ast.unparse(n.test) or "Mapping" in ast.unparse(n.test))]
-        if uses_same and not others:
+        via_ibt = any(isinstance(n, ast.Call) and isinstance(n.func, ast.Attribute) and n.func.attr == "is_base_type" for n in ast.walk(up.func.node))
+        if (uses_same or via_ibt) and not others:
             rep.ok("C12.e", f"C12.e {up.func.qualname}: the merge accepts exactly the values {ib.func.qualname} converts")
         else:
             rep.fail("C12.e", norm_key("C12.e", up.func.qualname), f"{up.func.qualname} decides with its own type test (not {r.name} == {lit!r}) whether data can be merged: values the conversion treats as scalars (e.g. str) are merged element-wise, or convertible ones are rejected", [up.func.loc], cls.name)
